@@ -482,7 +482,7 @@ class MixinAnalysis:
                 "A2", origin, "veto-able raise point `%s` (%s) is reached after the link write `%s` on %s with no "
                 "compensation: the refused call leaves the forest changed" % (
                     origin.stmt_text(), _veto_kind(exc), w.stmt_text(), _role_class(w.recv)),
-                construct="%s: `%s` after write in %s on %s" % (func.qual, origin.stmt_text(), w.func.qual, _role_class(w.recv))),
+                construct="%s: veto at %s after a link write on %s" % (func.qual, _origin_label(origin), _role_class(w.recv))),
                 name, trace))
         return n, list(out.values())
 
@@ -771,3 +771,12 @@ def _veto_kind(exc):
 
 def trace_text(trace):
     return format_trace(trace, 80)
+
+
+def _origin_label(ev):
+    """stable name of a veto point: the hook or the exception class, not the statement text"""
+    if ev.kind == "HOOK":
+        return "hook %s" % ev.name
+    if ev.kind in ("RAISE", "RERAISE"):
+        return "raise %s" % (getattr(ev, "exc", None) or "?")
+    return ev.kind.lower()
